@@ -286,7 +286,8 @@ prop("C13", fucs=["liquer.cache.MemoryCache.get", "liquer.cache.MemoryCache.cont
 
 
 # ------------------------------------------------------------------ StoreCache: key -> store path
-classdef("liquer.cache.StoreCache", bases=["Cache"], fields=dict(storage=Ref("Store"), path=Str, flat=Bool))
+classdef("BackingStore", abstract=True, fields={})      # the store behind a StoreCache: any store, every operation may fail
+classdef("liquer.cache.StoreCache", bases=["Cache"], fields=dict(storage=Ref("BackingStore"), path=Str, flat=Bool))
 SC = Ref("StoreCache")
 
 
